@@ -99,7 +99,43 @@ fn gen_udptl(rng: &mut Rng) -> Vec<u8> {
     v
 }
 
+/// whole delivery histories through one `UdtlReceiveBuffer` (pure pub API): `max_size`, initial `expected_seq`, ops
+pub fn run_udptlbuf(run: &mut Run, max_size: u16, expected0: u16, ops: &[(u16, usize)], nt: bool) {
+    let input = format!("{max_size} {expected0} {}", ops.iter().map(|(s, l)| format!("{s},{l}")).collect::<Vec<_>>().join(" "));
+    let o = ops.to_vec();
+    exec(run, "udptlbuf", &input, "UdtlReceiveBuffer::try_deliver", nt, None, move || {
+        let mut b = rustrtc::UdtlReceiveBuffer::with_max_size(max_size);
+        b.reset(expected0);
+        let mut out = vec![];
+        for (seq, len) in &o {
+            let r = b.try_deliver(*seq, vec![7u8; *len], vec![]).expect("try_deliver returns Ok");
+            out.push(format!("{},{},{},{},{}", r.map_or(0, |d| d.len() + 1), b.expected_seq(), b.buffered_count(), b.packets_lost, b.packets_recovered));
+        }
+        format!("ok {}", out.join(" "))
+    });
+}
+fn gen_udptl_history(rng: &mut Rng) -> (u16, u16, Vec<(u16, usize)>) {
+    let max_size = *rng.pick(&[0u16, 1, 2, 4, 8, 128]);
+    let e0 = *rng.pick(&[0u16, 1, 1, 100, 32760, 65500, 65530, 65535]);
+    let mut cur = e0; let mut ops = vec![];
+    for _ in 0..rng.range(1, 40) {
+        let seq = match rng.below(10) {
+            0 | 1 | 2 => { let s = cur; cur = cur.wrapping_add(1); s }
+            3 => cur.wrapping_add(rng.range(1, 6) as u16),
+            4 => cur.wrapping_add(rng.range(30, 40) as u16),
+            5 => cur.wrapping_sub(rng.range(1, 5) as u16),
+            6 => cur.wrapping_add(*rng.pick(&[16383u16, 16384, 16385, 32767, 32768, 32769])),
+            7 => { cur = cur.wrapping_add(2); cur.wrapping_sub(1) }
+            8 => rng.next() as u16,
+            _ => cur,
+        };
+        ops.push((seq, rng.below(5) as usize));
+    }
+    (max_size, e0, ops)
+}
+
 pub fn special(run: &mut Run, rng: &mut Rng, thorough: bool) {
+    for _ in 0..(if thorough { 80_000 } else { 4_000 }) { let (m, e, ops) = gen_udptl_history(rng); run_udptlbuf(run, m, e, &ops, true); }
     // H.264: every 1-byte payload, then histories + truncations/mutations of their payloads
     run_h264(run, &[Pk { seq: 1, ts: 2, marker: false, payload: vec![] }], false);
     for a in 0..=255u8 { run_h264(run, &[Pk { seq: 1, ts: 2, marker: true, payload: vec![a] }], false); }
@@ -134,6 +170,9 @@ pub fn replay_special(run: &mut Run, stream: &str, a: &[&str]) -> bool {
                 Some(Pk { seq: f[0].parse().ok()?, ts: f[1].parse().ok()?, marker: f[2] == "1", payload: unhex(f[3]) }) }).collect();
             run_h264(run, &pk, true); true }
         "udptl" if a.len() == 1 => { let l = LiveUdptl::new(); run_udptl(run, &l, &unhex(a[0]), true); true }
+        "udptlbuf" if a.len() >= 2 => {
+            let ops: Vec<(u16, usize)> = a[2..].iter().filter_map(|t| { let (x, y) = t.split_once(',')?; Some((x.parse().ok()?, y.parse().ok()?)) }).collect();
+            run_udptlbuf(run, a[0].parse().unwrap_or(128), a[1].parse().unwrap_or(1), &ops, true); true }
         _ => false,
     }
 }
